@@ -757,6 +757,38 @@ func c06ErrCode(stage string, err error) string {
 	return "evidence"
 }
 
+// ---- the calls into the real block machinery, with panics turned into observations
+func c06Validate(r *c06Replica, st sm.State, b *types.Block) (err error, panicked string) {
+	defer func() {
+		if x := recover(); x != nil {
+			panicked = c06Min1(fmt.Sprint(x), 160)
+			err = fmt.Errorf("panic: %s", panicked)
+		}
+	}()
+	return r.blockExec.ValidateBlock(st, b), ""
+}
+
+func c06Apply(r *c06Replica, bid types.BlockID, b *types.Block) (st sm.State, err error, panicked string) {
+	defer func() {
+		if x := recover(); x != nil {
+			panicked = c06Min1(fmt.Sprint(x), 160)
+			err = fmt.Errorf("panic: %s", panicked)
+			st = r.state
+		}
+	}()
+	st, _, err = r.blockExec.ApplyBlock(r.state, bid, b)
+	return st, err, ""
+}
+
+func c06LoadVals(r *c06Replica, q int64) (vs *types.ValidatorSet, err error) {
+	defer func() {
+		if x := recover(); x != nil {
+			err = fmt.Errorf("panic: %v", x)
+		}
+	}()
+	return r.stateStore.LoadValidators(q)
+}
+
 // ---- signing
 
 func (h *c06H) signVote(k *c06Key, height int64, round int32, bid types.BlockID, ts time.Time, idx int32) *types.Vote {
@@ -950,7 +982,14 @@ func (h *c06H) stepMake(s c06Step) *c06Made {
 	}
 	for _, tag := range evTags {
 		if ev := h.makeEvidence(st.LastBlockHeight, tag); ev != nil {
-			err := A.evpool.AddEvidence(ev)
+			err := func() (err error) {
+				defer func() {
+					if x := recover(); x != nil {
+						err = fmt.Errorf("panic: %v", x)
+					}
+				}()
+				return A.evpool.AddEvidence(ev)
+			}()
 			a := h.absEvidence(ev)
 			a["added"] = err == nil
 			reqEv = append(reqEv, a)
@@ -998,11 +1037,12 @@ func (h *c06H) stepMake(s c06Step) *c06Made {
 		h.t.Fatal(err)
 	}
 	blockB, gerr := h.gossip(parts)
-	errA := A.blockExec.ValidateBlock(st, block)
+	errA, panA := c06Validate(A, st, block)
 	var errB error
+	panB := ""
 	hashB := "none"
 	if gerr == nil {
-		errB = B.blockExec.ValidateBlock(B.state, blockB)
+		errB, panB = c06Validate(B, B.state, blockB)
 		hashB = h.nm.blockHash(blockB.Hash())
 	} else {
 		errB = gerr
@@ -1015,7 +1055,7 @@ func (h *c06H) stepMake(s c06Step) *c06Made {
 		"req":      map[string]interface{}{"txs": c06StrList(s.Txs), "ev": reqEv, "proposer": s.Proposer, "votes": votes, "fill": nfill},
 		"block":    proj,
 		"accepted": errA == nil, "err": classify(errA),
-		"acceptedB": errB == nil, "errB": classify(errB),
+		"acceptedB": errB == nil, "errB": classify(errB), "panic": panA + panB,
 		"hashA": h.nm.blockHash(block.Hash()), "hashB": hashB,
 		"bid":   h.absBID(m.blockID),
 		"bytes": int64(pb.Size()), "partsBytes": parts.ByteSize(), "maxBytes": st.ConsensusParams.Block.MaxBytes,
@@ -1345,6 +1385,15 @@ func (h *c06H) rebuild(pb *tmproto.Block, op c06Op, st sm.State) bool {
 		for n := range sigs {
 			h.resign(pb, st, n)
 		}
+	case "height_skip":
+		if len(sigs) < 1 {
+			return false
+		}
+		pb.Header.Height++
+		c.Height++
+		for n := range sigs {
+			h.resign(pb, st, n)
+		}
 	case "all_ts_last":
 		for n := range sigs {
 			if sigs[n].BlockIdFlag != tmproto.BlockIDFlagAbsent {
@@ -1420,16 +1469,19 @@ func (h *c06H) stepPerturb(m *c06Made, op c06Op) {
 		h.t.Fatal(err)
 	}
 	pb2 := new(tmproto.Block)
-	stage, code := "", "ok"
+	stage, code, pan := "", "ok", ""
 	var blk *types.Block
 	if err = proto.Unmarshal(bz, pb2); err == nil {
 		blk, err = types.BlockFromProto(pb2)
 	}
 	if err != nil {
 		stage, code = "decode", "basic"
-	} else if err = h.B.blockExec.ValidateBlock(st, blk); err != nil {
+	} else if err, pan = c06Validate(h.B, st, blk); err != nil {
 		stage = "validate"
 		code = c06ErrCode(stage, err)
+		if pan != "" {
+			code = "panic"
+		}
 	}
 	proj := h.projectBlock(pb)
 	delta := map[string]interface{}{"_": int64(0)}
@@ -1438,7 +1490,7 @@ func (h *c06H) stepPerturb(m *c06Made, op c06Op) {
 			delta[k] = v
 		}
 	}
-	h.emit(map[string]interface{}{"ev": "Perturb", "op": op, "delta": delta, "accepted": err == nil, "err": code, "stage": stage,
+	h.emit(map[string]interface{}{"ev": "Perturb", "op": op, "delta": delta, "accepted": err == nil, "err": code, "stage": stage, "panic": pan,
 		"hash": h.nm.blockHash(c06HeaderHash(pb)), "hash0": h.nm.blockHash(m.block.Hash())})
 }
 
@@ -1467,7 +1519,7 @@ func (h *c06H) randomOp(m *c06Made) c06Op {
 		}
 	}
 	rk := []string{"txs", "sig_absent", "sig_absent_rt", "sig_nil_unsigned", "sig_nil", "sig_ts", "sig_ts_signed", "sig_ts_signed_rt", "sig_bad",
-		"sig_addr", "sig_addr_rt", "sig_extra", "sig_fewer", "round", "all_ts_last_rt", "ev_valid", "ev_old", "ev_badpower", "ev_badtotal",
+		"sig_addr", "sig_addr_rt", "sig_extra", "sig_fewer", "round", "height_skip", "all_ts_last_rt", "ev_valid", "ev_old", "ev_badpower", "ev_badtotal",
 		"ev_badsig", "ev_wrongtime", "ev_dup", "ev_oversize", "ev_committed", "initial_commit"}
 	if h.rng.Intn(2) == 0 {
 		return single[h.rng.Intn(len(single))]
@@ -1591,13 +1643,13 @@ func (h *c06H) stepApply(m *c06Made, s c06Step) bool {
 		r.app.next = c06Resp{valUpdates: vu, pu: pu, results: res, appHash: appHash}
 	}
 	bidB := types.BlockID{Hash: m.blockB.Hash(), PartSetHeader: m.blockB.MakePartSet(types.BlockPartSizeBytes).Header()}
-	stA, _, errA := A.blockExec.ApplyBlock(A.state, m.blockID, m.block)
-	stB, _, errB := B.blockExec.ApplyBlock(B.state, bidB, m.blockB)
+	stA, errA, panA := c06Apply(A, m.blockID, m.block)
+	stB, errB, panB := c06Apply(B, bidB, m.blockB)
 	digest := func(st sm.State) string { return hex.EncodeToString(c06Sum(string(st.Bytes()))[:8]) }
 	ev := map[string]interface{}{"ev": "Apply",
 		"resp": map[string]interface{}{"valUpdates": ups, "pu": s.Pu, "results": results, "appHash": s.AppHash},
 		"bid":  h.absBID(m.blockID), "bidB": h.absBID(bidB),
-		"ok": errA == nil, "okB": errB == nil, "err": "", "lv": []interface{}{}, "lp": []interface{}{}}
+		"ok": errA == nil, "okB": errB == nil, "err": "", "panic": panA + panB, "lv": []interface{}{}, "lp": []interface{}{}}
 	if errA != nil {
 		ev["err"] = c06Min1(errA.Error(), 160)
 	}
@@ -1647,7 +1699,7 @@ func (h *c06H) stepApply(m *c06Made, s c06Step) bool {
 		// BeginBlock ask for
 		lv := []interface{}{}
 		for q := stA.InitialHeight; q <= stA.LastBlockHeight+2; q++ {
-			vs, err := A.stateStore.LoadValidators(q)
+			vs, err := c06LoadVals(A, q)
 			e := map[string]interface{}{"h": q, "ok": err == nil, "vals": []c06Val{}}
 			if err == nil {
 				e["vals"] = h.absVals(vs)
